@@ -418,3 +418,12 @@ def r12_11(ctx):
             ctx.check(f"{cname}.{m}: one read per printed occurrence", not dup and not kept, "each occurrence of an operand in the text comes from its own il_read() call",
                       "; ".join(dup[:2] + [f"keeps a read result: {k}" for k in kept[:1]]) or "ok", fn_where(idx, fi), nontrivial=bool(dup or kept) or any(isinstance(c, ast.Attribute) and c.attr == "il_read" for c in ast.walk(fi.node)))
     ctx.need(n >= 30, f"only {n} emission methods inspected")
+
+
+@rule("R12.12", "C12", "everything initialised is used, part by part: each part of an instruction starts from a fully reset transformer (no effect of an earlier part in its sequence), and an effect that was built is referenced by the effect built from it whatever its condition is", min_instances=10)
+def r12_12(ctx):
+    from .c05 import branch_emits_both_arms
+    from .c14 import r14_5
+
+    r14_5(ctx)
+    branch_emits_both_arms(ctx)
